@@ -651,11 +651,36 @@ pub fn run_call(c: &Call) -> String {
                 b: RcAnchor(s),
                 c: RcAnchor(std::rc::Rc::new("solo".to_string())),
             };
-            match guard(|| serde_saphyr::to_string(&o)) {
+            let nested = match guard(|| serde_saphyr::to_string(&o)) {
                 Ok(Ok(t)) => t,
                 Ok(Err(e)) => format!("SerErr({e})"),
                 Err(a) => format!("{a:?}"),
+            };
+            // the flat equivalent: inner text computed beforehand
+            #[derive(Serialize)]
+            struct Flat {
+                a: RcAnchor<String>,
+                n: String,
+                b: RcAnchor<String>,
+                c: RcAnchor<String>,
             }
+            let inner_text = {
+                let shared = std::rc::Rc::new("inner".to_string());
+                serde_saphyr::to_string(&vec![RcAnchor(shared.clone()), RcAnchor(shared)]).unwrap_or_default()
+            };
+            let f = std::rc::Rc::new("outer".to_string());
+            let flat_doc = Flat {
+                a: RcAnchor(f.clone()),
+                n: inner_text,
+                b: RcAnchor(f),
+                c: RcAnchor(std::rc::Rc::new("solo".to_string())),
+            };
+            let flat = match guard(|| serde_saphyr::to_string(&flat_doc)) {
+                Ok(Ok(t)) => t,
+                Ok(Err(e)) => format!("SerErr({e})"),
+                Err(a) => format!("{a:?}"),
+            };
+            if nested == flat { nested } else { format!("{NESTED_MISMATCH} nested={nested:?} flat={flat:?}") }
         }
         Call::ReportCallbackPanics => {
             let opts = serde_saphyr::Options::default().with_budget_report(|_r| panic!("report callback panics"));
